@@ -7,7 +7,7 @@ from common import *
 import kani
 
 
-def run_rust_tests(pkg, injections, filter_name, timeout=1800):
+def run_rust_tests(pkg, injections, filter_name, timeout=1800, no_args=False):
     """injections: [(relative source file, rust code appended)]. -> {test name: 'ok'|'FAILED'}, raw output"""
     with kani.FixedScratch("replay") as fs:
         for rel, code in injections:
@@ -18,8 +18,10 @@ def run_rust_tests(pkg, injections, filter_name, timeout=1800):
                 f.write("\n" + code + "\n")
         env = dict(ENV)
         env["CARGO_TARGET_DIR"] = fs.target
-        rc, out, err, secs = run(["cargo", "test", "--offline", "-p", pkg, filter_name, "--", "--test-threads", "1"],
-                                 cwd=fs.repo, env=env, timeout=timeout)
+        # no_args: some tests of azure-proxy-agent initialise a clap CLI from the process arguments, which rejects any
+        # libtest filter/option; such replays run the whole test binary and pick their results by name
+        cmd = ["cargo", "test", "--offline", "-p", pkg] + ([] if no_args else [filter_name, "--", "--test-threads", "1"])
+        rc, out, err, secs = run(cmd, cwd=fs.repo, env=env, timeout=timeout)
         res = {}
         for m in re.finditer(r"^test (\S+) \.\.\. (ok|FAILED)", out, re.M):
             res[m.group(1).split("::")[-1]] = m.group(2)
